@@ -224,6 +224,30 @@ func EscapeStrings() []string {
 	return res
 }
 
+// EOFTexts lists inputs that end, without a line break, in each lexical construct of the language, cut
+// at every character position, alone and after a valid lookup; plus CR/LF variants and inputs that consist
+// of comments and white space only.
+func EOFTexts() []string {
+	constructs := []string{"# comment", "#", "#c", "# \t", "\"AB\"", "\"A\\\"B\"", "\"A\\\\\"", "ABC", "g_1.x", "12", "+5", "-7", ":c1:", "::", "->", "||", "|",
+		"@", "1@0", "-", "-marks", "[A B]", "[A-C]", "/A/", "x+1 & y-2", ",", ";", "=", "A#c", "A #c", "1#", "\"A\"#x", "->#", "# a # b",
+		"#\r", "# c\r\n# d", "#\n#", "\r\n#", "\t# x", " ", "\t", "\r", "\n", "\r\n", "\n\n#", "#é", "# \"unterminated", "#!", "\u00a0#"}
+	prefixes := []string{"", "GSUB1: A -> B ", "GSUB1: A -> B\n", "GSUB5: A B -> 1@0\r\n", "# first line\nGPOS1: A -> x+1 "}
+	seen := map[string]bool{}
+	var res []string
+	for _, p := range prefixes {
+		for _, c := range constructs {
+			for i := 0; i <= len(c); i++ {
+				t := p + c[:i]
+				if !seen[t] {
+					seen[t] = true
+					res = append(res, t)
+				}
+			}
+		}
+	}
+	return res
+}
+
 var soupWords = []string{"GSUB1", "GSUB2", "GSUB3", "GSUB4", "GSUB5", "GSUB6", "GPOS1", "GPOS2", "GPOS3", "GPOS4",
 	"GSUB7", "class", "inputclass", "backtrackclass", "lookaheadclass", "first", "second", "mark", "base", "to",
 	"x", "y", "dx", "dy", "_", "marks", "ligs", "lig", "rtl", "A", "B", "C", "X", "Y", "Z", "a", "zero", "nosuchglyph",
